@@ -13,5 +13,5 @@ CONSTANTS
   WSet <- MCWSet
   Gen = TRUE
 VIEW View
-INVARIANT DirectedMissing
+INVARIANT DirectedStale
 CHECK_DEADLOCK FALSE
